@@ -20,6 +20,14 @@ func (rt *runtime) cmplEvaluateNodeProgram(node *nodeProgram, eval bool) Value {
 	}
 	rt.cmplFunctionDeclaration(node.functionList)
 	rt.cmplVariableDeclaration(node.varList)
+	if eval {
+		// Eval code runs in the frame of its caller: positions in the eval text
+		// belong to that text while it runs, and to the caller's file again
+		// afterwards.
+		frame := &rt.scope.frame
+		file := frame.file
+		defer func() { frame.file = file }()
+	}
 	rt.scope.frame.file = node.file
 	value := rt.cmplEvaluateNodeStatementList(node.body)
 	if value.isEmpty() {
